@@ -184,11 +184,11 @@ Proof.
 Qed.
 
 Lemma vclose_R tol x y :
-  @vclose R NumR tol x y = true -> Rabs (x - y) <= tol * (1 + Rabs y).
+  @vclose R NumR tol x y = true -> Rabs (x - y) <= tol.
 Proof.
   unfold vclose. intros H. apply nleb_Rle' in H.
-  change (@nabs R NumR (x - y) <= tol * (1 + @nabs R NumR y)) in H.
-  rewrite (NumR.nabs_R (x - y)), (NumR.nabs_R y) in H. exact H.
+  change (@nabs R NumR (x - y) <= tol) in H.
+  rewrite (NumR.nabs_R (x - y)) in H. exact H.
 Qed.
 
 Definition all_true5 : list bool := [true; true; true; true; true].
@@ -210,7 +210,7 @@ Theorem main_trace :
   exists st, run tmR (Q2R eps) (ordf ordl) (init_state tmR (map Q2R h)) (map fst ops) = Some st /\
              stSolved st = solI /\
              (forall s, (s < nS)%nat ->
-               Rabs (sV st s - untab (map Q2R VI) s) <= Q2R tol * (1 + Rabs (untab (map Q2R VI) s))) /\
+               Rabs (sV st s - untab (map Q2R VI) s) <= Q2R tol) /\
              (forall s, (s < nS)%nat -> sSol st s = true -> absflag tmR s = false ->
                sAct st s = nth s actI 0%nat).
 Proof.
